@@ -39,6 +39,11 @@ TRUSTED = [
     "Go semantics: code without map ranges, goroutines, select, clocks or random numbers is a function of its inputs; "
     "text/template ranges over maps in sorted key order (documented behaviour of the standard library)",
     "sha256 digests stand for file contents when the specification is evaluated in Rocq (the harness compares the bytes themselves as well)",
+    "the sort.* calls that order a site's output are pinned verbatim (comparator included) in the coverage table: the site theorems assume the comparator is "
+    "bytewise < on the map key itself, a strict total order on distinct keys (C09_sort_needs_distinct_keys shows the assumption is necessary); the unit family "
+    "probes the real comparator with near-duplicate keys on every run",
+    "history independence is proved for a generator that leaves its inputs alone (C09_history_independent, C09_render_history_deepcopy); that the real generator "
+    "does is CHECKED (deep comparison of every input object after every call, and the history family), not proved",
     "the harness' replacement of Manager.Reload by a counter (no nginx binary); file comparison is the real LocalManager / configContentsChanged on a scratch directory",
 ]
 
@@ -76,7 +81,7 @@ def inventory_obligations(run, sites, nondet):
     for s, (idx, line, code) in zip(sites, rows):
         sid = "%s#%d" % (s["Func"], s["Index"])
         status[sid] = code
-        where = "%s/%s:%d %s (range %s, class %s, targets %s)" % (s["Pkg"], s["File"], s["Line"], sid, s["Operand"], s["Class"], s.get("Targets") or [])
+        where = "%s/%s:%d %s (range %s, class %s, targets %s, sorted by %s)" % (s["Pkg"], s["File"], s["Line"], sid, s["Operand"], s["Class"], s.get("Targets") or [], s.get("Sorts") or [])
         if code == 9:
             run.add_obligation(False, "inventory:" + sid, "map-range site not in the coverage table Determ/ProofsTable.v (new or renamed site): " + where)
         elif code == 8:
@@ -176,6 +181,26 @@ def merge(per_proc):
                 if not o.get("diff") and vo.get("first") != o.get("first"):
                     o["diff"] = cross_process_diff(o.get("first") or {}, vo.get("first") or {})
             o["distinct"] = len({json.dumps(r["files"]) for r in o.get("renderings") or []})
+            for v in versions[1:]:
+                for m in v["obs"].get("mutated") or []:
+                    if m not in (o.get("mutated") or []):
+                        o.setdefault("mutated", []).append(m)
+        elif c["fam"] == "history":
+            # everything that must equal the fresh rendering of B in process 0
+            o["others"] = [o.get("b_after_a"), o.get("b_again")]
+            for v in versions[1:]:
+                vo = v["obs"]
+                for k in ("error", "panic"):
+                    if vo.get(k) and not o.get(k):
+                        o[k] = vo[k]
+                o["others"] += [vo.get("b_after_a"), vo.get("b_again"), vo.get("b_fresh")]
+                for m in vo.get("mutated") or []:
+                    if m not in (o.get("mutated") or []):
+                        o.setdefault("mutated", []).append(m)
+                if vo.get("diff") and not o.get("diff"):
+                    o["diff"] = vo["diff"]
+                if not o.get("diff") and vo.get("b_first") != o.get("b_first"):
+                    o["diff"] = cross_process_diff(o.get("b_first") or {}, vo.get("b_first") or {})
         else:
             seen = {json.dumps(x): i for i, x in enumerate(o.get("outs") or [])}
             for v in versions[1:]:
@@ -212,7 +237,12 @@ def case_to_coq(c, status):
                 table.append(cq_pairs([(f["name"], f["sha"]) for f in r["files"]]))
             seq.append("(%d%%nat, %s)" % (index[k], C.cq_bool(r["changed"] or r["reloaded"])))
         site = (o.get("diff") or {}).get("site")
-        return "render_case_ix %d %s %s %d %s" % (c["id"], C.cq_list(table), C.cq_list(seq), o.get("max_map", 0), C.cq_bool(status.get(site) == 3))
+        return "render_case_ix %d %s %s %d %s %d%%nat" % (c["id"], C.cq_list(table), C.cq_list(seq), o.get("max_map", 0),
+                                                         C.cq_bool(status.get(site) == 3), len(o.get("mutated") or []))
+    if c["fam"] == "history":
+        fd = lambda fs: cq_pairs([(f["name"], f["sha"]) for f in fs or []])
+        return "history_case %d %s %s %d%%nat %s" % (c["id"], fd(o.get("b_fresh")), C.cq_list([fd(x) for x in o["others"]]),
+                                                    len(o.get("mutated") or []), C.cq_bool(not o.get("a_equals_b")))
     kind, sid = UNIT_KIND[c["kind"]]
     code = status.get(sid, 9)
     det = code <= 1 and c["kind"] not in OFFPATH_PROJECTION
@@ -253,6 +283,11 @@ def slim(c):
         s["obs"] = {"renderings": len(o.get("renderings") or []), "distinct_renderings": o.get("distinct"), "bytes": o.get("bytes"),
                     "first_difference": o.get("diff"), "changed_after_first": sum(1 for r in (o.get("renderings") or [])[1:] if r["changed"]),
                     "reloads_after_first": sum(1 for r in (o.get("renderings") or [])[1:] if r["reloaded"] and not r.get("fresh_process"))}
+        if o.get("mutated"):
+            s["obs"]["inputs_modified_by_the_generator"] = o["mutated"]
+    elif c["fam"] == "history":
+        s["obs"] = {"scenario": o.get("scenario"), "files_for_B_differ_from_a_fresh_rendering": o.get("diff"),
+                    "inputs_modified_by_the_generator": o.get("mutated"), "b_fresh": o.get("b_fresh"), "b_after_a": o.get("b_after_a")}
     else:
         s["obs"] = {"bindings": o.get("bindings"), "distinct_outputs": len(o.get("outs") or []), "outputs": (o.get("outs") or [])[:3], "counts": (o.get("counts") or [])[:8]}
     for k in ("error", "panic"):
@@ -275,7 +310,7 @@ def judge(run, cases, res, status, verbose=False):
         cid, agree, spec, nontrivial, tag = row
         c = byid[cid]
         o = c["obs"]
-        key = "%s:%s%s" % (c["fam"], c["kind"], ":plus" if c["plus"] else "")
+        key = "%s:%s%s" % (c["fam"], o.get("scenario") or c["kind"], ":plus" if c["plus"] else "")
         by[key] = by.get(key, 0) + 1
         run.count_case({k: c[k] for k in ("fam", "kind", "plus", "seed", "p")}, bool(nontrivial))
         run.cov["traces_validated_against_impl"] += 1
@@ -285,7 +320,11 @@ def judge(run, cases, res, status, verbose=False):
             if verbose:
                 print("replay case %d (%s): %d renderings in %d processes, %d distinct; spec=%d; first difference: %s"
                       % (cid, c["kind"], len(o["renderings"]), c.get("procs", 1), o.get("distinct", 0), spec, json.dumps(o.get("diff"))))
-            if not spec:
+            if o.get("mutated"):
+                run.failing({"kind": "input-mutated", "resource": c["kind"]}, [slim(c)],
+                            "the generator wrote into the objects it was given (%s fixture): %s" % (c["kind"], "; ".join(o["mutated"])[:500]),
+                            theorem="Determ.Proofs.history_independent (hypothesis: the step leaves its inputs alone)")
+            elif not spec:
                 d = o.get("diff") or {}
                 site = d.get("site", "unattributed")
                 if not d:
@@ -297,6 +336,22 @@ def judge(run, cases, res, status, verbose=False):
                             % (c["kind"], o.get("distinct", 0), len(o["renderings"]), sum(1 for r in o["renderings"][1:] if r["changed"] or r["reloaded"]),
                                d.get("file"), d.get("line"), d.get("a"), d.get("b"), d.get("block"), site),
                             theorem="Determ.Model.spec_ok (C09_spec_ok_sound)")
+        elif c["fam"] == "history":
+            differs = [x for x in o["others"] if x != o.get("b_fresh")]
+            if verbose:
+                print("replay case %d (history %s): files for B equal to a fresh rendering in %d of %d renderings; inputs modified: %s; first difference: %s"
+                      % (cid, o.get("scenario"), len(o["others"]) - len(differs), len(o["others"]), o.get("mutated"), json.dumps(o.get("diff"))))
+            if o.get("mutated"):
+                run.failing({"kind": "input-mutated", "resource": c["kind"], "scenario": o.get("scenario")}, [slim(c)],
+                            "the generator wrote into the objects it was given (history %s): %s" % (o.get("scenario"), "; ".join(o["mutated"])[:500]),
+                            theorem="Determ.Proofs.history_independent (hypothesis: the step leaves its inputs alone)")
+            if differs:
+                d = o.get("diff") or {}
+                run.failing({"kind": "history-dependent-output", "resource": c["kind"], "scenario": o.get("scenario")}, [slim(c)],
+                            "the files for the same resources depend on what was rendered before (history %s): a configurator that rendered input A first "
+                            "and a fresh one disagree on input B: %s line %s: fresh %r vs after-A %r (block %r)"
+                            % (o.get("scenario"), d.get("file"), d.get("line"), d.get("a"), d.get("b"), d.get("block")),
+                            theorem="Determ.Model.history_ok (C09_history_ok_sound, C09_render_history_deepcopy)")
         else:
             kind, sid = UNIT_KIND[c["kind"]]
             code = status.get(sid, 9)
@@ -338,15 +393,20 @@ def check(run):
             run.failing({"kind": "refuted-site-not-observed", "site": sid}, [],
                         "the coverage table refutes %s but no run of the real code showed two different outputs" % sid,
                         theorem="correspondence Determ.Model ~ internal/configs", found_input=False)
-    for c in [x for x in cases if x["fam"] == "render"][:2] + [x for x in cases if x["fam"] == "unit"][:2]:
+    for c in [x for x in cases if x["fam"] == "render"][:2] + [x for x in cases if x["fam"] == "unit"][:1] + [x for x in cases if x["fam"] == "history"][:1]:
         run.sample(slim(c))
     run.cov["processes"] = PROCS
-    run.cov["rule"] = ("render: 14 fixed fixtures (API-key Secret with 5 and 12 keys; API-key policies in spec + routes + VirtualServerRoute subroutes; tiered "
-                       "rate-limit policies with 3-4 JWT claims in one and two scopes; header lists, 5 upstreams x 4 endpoints, splits, matches; Ingress with 12+ annotations, "
-                       "5 services, health checks; mergeable Ingress with denied/inherited annotations and 3 minions; TransportServer with 5 upstreams; 5 TLS-passthrough "
-                       "TransportServers) + -n generated size variations, each rebuilt from its seed and pushed through Configurator.AddOrUpdateResources 60 times in each of 3 "
-                       "fresh processes, on both the OSS and the Plus templates.  unit: 10 map-ranging functions x 3-4 sizes (2..13 entries) x 400 calls x 3 processes.  A case "
-                       "is distinct by (family, fixture, plus, seed, sizes); it is non-trivial when its largest unordered collection has >= 2 entries.")
+    run.cov["rule"] = ("render: 20 fixed fixtures (API-key Secret with 5 and 12 keys; 6 Secrets whose client ids collide under case folding / punctuation trimming / "
+                       "separator folding / numeric padding; API-key policies in spec + routes + VirtualServerRoute subroutes; tiered rate-limit policies with 3-4 JWT claims in "
+                       "one and two scopes; header lists, 5 upstreams x 4 endpoints, splits, matches; Ingress with 12+ annotations, 5 services, health checks; mergeable Ingress "
+                       "with denied/inherited annotations and 3 minions; TransportServer with 5 upstreams; 5 TLS-passthrough TransportServers) + -n generated size variations, "
+                       "each rebuilt from its seed and pushed through Configurator.AddOrUpdateResources 60 times in each of 3 fresh processes (endpoint sets reshuffled every "
+                       "round), on the OSS and the Plus templates; after every call the Kubernetes objects handed in are deep-compared with a copy taken before.  "
+                       "unit: 10 map-ranging functions x sizes 2..13 + 8 near-duplicate key sets (case, punctuation, separators, padding, unicode) x 400 calls x 3 processes.  "
+                       "history: 8 update scenarios (master / minion / Ingress annotation, Policy, Secret, VirtualServer route, TransportServer upstream replaced by a modified copy "
+                       "while all other objects keep their identity) x both template sets + -n/4 generated: input A, then B, then B again in one Configurator, B in a fresh "
+                       "Configurator from pristine objects, in 3 processes; all renderings of B must be byte-identical and no stored object modified.  A case is distinct by "
+                       "(family, fixture, plus, seed, sizes); non-trivial: largest unordered collection >= 2 entries (render/unit), A and B render differently (history).")
     run.cov["trusted_base"] = TRUSTED
     run.assumptions += [
         "map ranges in packages other than internal/configs{,/version1,/version2} that generation calls into are not inventoried (they are exercised by the renderings only)",
